@@ -96,7 +96,7 @@ def queryValuePrims : List String := ["req_query_value_in", "req_query_value_pre
 def valuePrims : List String := headerValuePrims ++ queryValuePrims
 
 theorem C18_header_value_present_partial (prim : String) (h : prim ∈ headerValuePrims)
-    (o : Orc) (a0 a1 : Bytes) (fold : Bool) (r : Req) (v : Bytes) (hp : assoc a0 r.headers = some v) :
+    (o : Orc) (a0 a1 : Bytes) (fold : Bool) (r : Req) (v : Bytes) (hp : assoc (canonKey a0) r.headers = some v) :
     matchPrim o prim a0 a1 fold r = specPrim o prim a0 a1 fold r := by
   unfold headerValuePrims at h
   simp only [List.mem_cons, List.mem_nil_iff, or_false] at h
@@ -122,12 +122,12 @@ theorem C18_query_value_present_partial (prim : String) (h : prim ∈ queryValue
   · exact eq_req_query_value_hash_in o a0 a1 fold r v hp
 
 theorem C18_ua_res_header_partial (o : Orc) (a0 a1 : Bytes) (fold : Bool) (r : Req) :
-    ((assoc uaKey r.headers).isSome → matchPrim o "req_ua_regmatch" a0 a1 fold r = specPrim o "req_ua_regmatch" a0 a1 fold r) ∧
-    ((∀ p, r.resp = some p → (assoc a0 p.headers).isSome) →
+    ((assoc (canonKey uaKey) r.headers).isSome → matchPrim o "req_ua_regmatch" a0 a1 fold r = specPrim o "req_ua_regmatch" a0 a1 fold r) ∧
+    ((∀ p, r.resp = some p → (assoc (canonKey a0) p.headers).isSome) →
       matchPrim o "res_header_value_in" a0 a1 fold r = specPrim o "res_header_value_in" a0 a1 fold r) := by
   constructor
   · intro h
-    cases hv : assoc uaKey r.headers with
+    cases hv : assoc (canonKey uaKey) r.headers with
     | none => rw [hv] at h; cases h
     | some v => exact eq_req_ua_regmatch o a0 a1 fold r v hv
   · exact eq_res_header_value_in o a0 a1 fold r
@@ -149,6 +149,15 @@ theorem C18_header_key_partial (o : Orc) (a0 a1 : Bytes) (fold : Bool) (r : Req)
     ((∀ p, r.resp = some p → ∀ kv ∈ p.headers, kv.2 ≠ []) →
       matchPrim o "res_header_key_in" a0 a1 fold r = specPrim o "res_header_key_in" a0 a1 fold r) :=
   ⟨eq_req_header_key_in o a0 a1 fold r, eq_res_header_key_in o a0 a1 fold r⟩
+
+/-- header names are case-insensitive for all header primitives: two names that differ only in ASCII case
+    select the same header — when every byte is a token character; a name with another byte (a blank …) is
+    looked up literally, as net/textproto does. -/
+theorem C18_header_name_case_insensitive (k k' : Bytes) (h : eqv true k k' = true) (ht : k.all tokenByte = true)
+    (hs : List (Bytes × Bytes)) : headerGet hs k = headerGet hs k' := by
+  have ht' : k'.all tokenByte = true := by rw [← allToken_fold k k' h]; exact ht
+  unfold headerGet canonKey
+  rw [if_pos ht, if_pos ht', canonLoop_fold k k' h true]
 
 /-- every primitive of funcProtos is covered by one of the theorems above -/
 theorem C18_all_primitives_covered :
@@ -295,6 +304,8 @@ theorem C18_ip_range_bounds (s e : Bytes) (hle : bytesLt e s = false) :
   simp [ipRangeM, ipLe, hle, lt_irrefl]
 
 /-! Non-vacuity -/
+example : canonKey [120, 45, 107, 69, 121] = [88, 45, 75, 101, 121] := by decide   -- "x-kEy" -> "X-Key"
+example : canonKey [120, 32, 107] = [120, 32, 107] := by decide                       -- "x k" is left alone
 example : Sorted [[65], [66, 67], [97]] := by unfold Sorted; decide
 example : inSorted [66, 67] [[65], [66, 67], [97]] = true := by decide
 example : matchPrim orc0 "req_path_suffix_in" [46, 74, 80, 71] [] true { emptyReq with path := [47, 120, 46, 106, 112, 103] } = some true := by
